@@ -25,9 +25,10 @@ RULE = ("cases = (a) field tuples in and around the legal ranges: month "
         "distinct by (mode, entry point, tuple or string)")
 DECIDING = ["ctor.post", "tz.post", "parse.grid", "parse.fuzz"]
 MIN_EVALS = {"ctor.post": 8000, "tz.post": 800, "parse.grid": 3000,
-             "parse.fuzz": 15000}
+             "parse.fuzz": 15000, "parse.long_digits": 100}
 MIN_EVALS_THOROUGH = {"ctor.post": 20000, "tz.post": 800,
-                      "parse.grid": 12000, "parse.fuzz": 150000}
+                      "parse.grid": 12000, "parse.fuzz": 150000,
+                      "parse.long_digits": 500}
 EXHAUSTIVE = {
     "thorough": "constructor grids listed in the rule (month x day, "
                 "day-of-year, week x weekday per year type and mode; hour x "
@@ -36,6 +37,11 @@ EXHAUSTIVE = {
              "two year types per mode",
 }
 ASSUMPTIONS = [
+    "texts with digit runs of 22-60 characters (where no date arithmetic can "
+    "follow) are parsed in a child process under a CPU-time limit of 20 s "
+    "(RLIMIT_CPU, not wall clock): the regular-expression engine cannot be "
+    "counted in line events; exceeding it on a < 100-character text is "
+    "reported as a hang",
     "termination is decided in logical steps: more than 300000 + 2000*len "
     "LINE events in repository code during one parse is an overrun unless "
     "the reference's reading of the text says the work is linear in a large "
@@ -294,6 +300,35 @@ def time_zone_cases():
                                "fields": {"hour_of_day": h,
                                           "minute_of_hour": m,
                                           "second_of_minute": s}}
+    # decimal fractions: legal below hour 24, never at 24:00
+    for h in (0, 23, 24):
+        for frac in (0.0, 0.5, 0.000001, 0.999999):
+            for unit in ("hour", "minute", "second"):
+                kw = {"year": 2000, "hour_of_day": h}
+                if unit == "hour":
+                    kw["hour_of_day_decimal"] = frac
+                elif unit == "minute":
+                    kw.update(minute_of_hour=0, minute_of_hour_decimal=frac)
+                else:
+                    kw.update(minute_of_hour=0, second_of_minute=0,
+                              second_of_minute_decimal=frac)
+                legal = h < 24 or frac == 0.0
+                yield {"op": "ctor", "mode": "gregorian", "what": "time",
+                       "kw": kw, "legal": legal, "near": True,
+                       "no_fields": True}
+                digits = ("%.6f" % frac)[2:].rstrip("0") or "0"
+                for ext in (True, False):
+                    sep = ":" if ext else ""
+                    t = "%02d" % h
+                    if unit != "hour":
+                        t += sep + "00"
+                    if unit == "second":
+                        t += sep + "00"
+                    yield {"op": "text", "mode": "gregorian",
+                           "what": "time",
+                           "text": ("2000-01-01T" if ext else "20000101T") +
+                           t + "," + digits + "Z", "legal": legal,
+                           "fields": None}
     for h in (-100, -99, -1, 0, 1, 99, 100):
         for m in range(-61, 62):
             legal = legal_zone(h, m)
@@ -439,7 +474,8 @@ def run_case(ctx, repo, case):
                           "cls": cls,
                           "fields": ({k: v for k, v in case["kw"].items()
                                       if not k.startswith("time_zone")}
-                                     if op == "ctor" else None)}
+                                     if op == "ctor" and
+                                     not case.get("no_fields") else None)}
             try:
                 if op == "ctor":
                     repo.TimePoint(**case["kw"])
@@ -507,6 +543,88 @@ def run_case(ctx, repo, case):
         repo.set_mode("gregorian")
 
 
+def long_digit_cases(rng, n):
+    """texts with long digit runs where no date arithmetic can follow (the
+    cost of these is inside the regular-expression engine, which line events
+    cannot see)"""
+    out = []
+    units = ["H", "M", "S", "", "X", "Y", "D", "W", ",5H", "HM", "H1"]
+    for k in range(n):
+        digits = "".join(rng.choice("0123456789")
+                         for _ in range(rng.choice((22, 28, 34, 40, 60))))
+        v = k % 6
+        if v == 0:
+            text = "PT" + digits + rng.choice(units)
+            parser = "DurationParser"
+        elif v == 1:
+            text = "P" + digits + rng.choice(units) + rng.choice(("", "T"))
+            parser = "DurationParser"
+        elif v == 2:
+            text = "-PT1H" + digits + rng.choice(units)
+            parser = "DurationParser"
+        elif v == 3:
+            text = rng.choice(("2000-01-01T", "20000101T", "+", "T", "",
+                               "2000-W")) + digits + rng.choice(("", "Z",
+                                                                  "+01"))
+            parser = "TimePointParser"
+        elif v == 4:
+            # malformed interval inside a recurrence: no arithmetic follows
+            text = "R3/2000-01-01T00:00:00Z/PT" + digits + rng.choice(
+                ("", "X", "HX"))
+            parser = "TimeRecurrenceParser"
+        else:
+            text = "R/" + digits + "T/P1D"
+            parser = "TimeRecurrenceParser"
+        out.append({"parser": parser, "cfg": k % 2, "text": text})
+    return out
+
+
+def long_digit_probe(ctx, rng):
+    import json
+    import subprocess
+    import sys
+    cases = long_digit_cases(rng, 120 if ctx.tier == "quick" else 600)
+    limit = 20
+    env = dict(__import__("os").environ)
+    env["PYTHONDONTWRITEBYTECODE"] = "1"
+    try:
+        proc = subprocess.run(
+            [sys.executable, "-m", "rtv.hangprobe", str(limit)],
+            input=json.dumps(cases).encode(), cwd=core.VERIF, env=env,
+            stdout=subprocess.PIPE, stderr=subprocess.PIPE, timeout=600)
+    except subprocess.TimeoutExpired:
+        ctx.inconclusive.append("long-digit child hit the wall-clock "
+                                "watchdog")
+        return
+    lines = proc.stdout.decode().splitlines()
+    started = [int(x.split()[1]) for x in lines if x.startswith("START")]
+    done = {int(x.split()[1]): x.split()[2] for x in lines
+            if x.startswith("DONE")}
+    ctx.ev("parse.long_digits", len(done))
+    for i, outcome in done.items():
+        if outcome.startswith("other:"):
+            ctx.case = dict(cases[i], op="long-digits")
+            ctx.violation("fuzz.exception-type", "%s.parse(%r) raised %s" % (
+                cases[i]["parser"], cases[i]["text"], outcome[6:]),
+                text=cases[i]["text"], parser=cases[i]["parser"],
+                exc=outcome[6:])
+    if proc.returncode != 0:
+        last = started[-1] if started else None
+        if last is not None and last not in done:
+            ctx.case = dict(cases[last], op="long-digits")
+            ctx.violation(
+                "hang", "%s.parse(%r) (a %d-character text) used more than "
+                "%d CPU-seconds without returning (child killed by the CPU "
+                "limit, exit %s); all %d other texts of the batch take "
+                "milliseconds" % (cases[last]["parser"], cases[last]["text"],
+                                  len(cases[last]["text"]), limit,
+                                  proc.returncode, len(done)),
+                text=cases[last]["text"], parser=cases[last]["parser"])
+        else:
+            ctx.inconclusive.append("long-digit child failed: %s" % (
+                proc.stderr.decode()[-300:],))
+
+
 def workload(ctx, repo):
     rng = ctx.rng
     i = 0
@@ -555,5 +673,7 @@ def workload(ctx, repo):
             case_run = dict(case)
             case_run["seeds_set"] = sset
             run_case(ctx, repo, case_run)
+    if ctx.worker == 0:
+        long_digit_probe(ctx, rng)
     ctx.extra["budget_max_steps_seen"] = ctx.budget.max_seen
     ctx.extra["budgeted_calls"] = ctx.budget.total_calls
